@@ -202,16 +202,18 @@ class CallMixin(object):
                 e, self.apply(s2, r.val, args, kw, e, star), args, kw, target=r.val))
         return out
 
-    def run_ghost_at(self, e, out, args=(), kw=None, target=None):
+    def run_ghost_at(self, e, out, args=(), kw=None, target=None, name=None):
         """sidecar ghost statements attached to a call (contract.ghost_at): executed after the
         call returned normally, so the ghost update is exactly as path-sensitive as the real call"""
         c = self.contract
         if c is None or not c.ghost_at or self.call_depth or self.spec_mode:
             return out
-        f = e.func
-        name = f.attr if isinstance(f, ast.Attribute) else (f.id if isinstance(f, ast.Name) else None)
-        if name is None and isinstance(f, ast.Subscript):
-            name = '$subscript_call'        # table[key](...)
+        if name is None:
+            f = e.func
+            name = f.attr if isinstance(f, ast.Attribute) else (f.id if isinstance(f, ast.Name) else None)
+            if name is None and isinstance(f, ast.Subscript):
+                name = '$subscript_call'        # table[key](...)
+        # (name given: a property read `obj.name`, which is a call of the getter)
         stmts = c.ghost_at.get(name) or []
         stmts_always = c.ghost_at.get((name or '') + '!') or []      # 'callee!': also when the call raised
         if not stmts and not stmts_always:
